@@ -39,7 +39,7 @@ def install_families(cx):
         s1 = ex.api.havoc(st, "trait->getattr")
         r, s_ok = ex.api.fresh_obj("got", s1)
         e = cx.fresh("exc", INT)
-        return k(r, s_ok) + k(NULL, s1.assume(e >= 1).with_exc(e))
+        return k(r, s_ok.gset("got", r)) + k(NULL, s1.assume(e >= 1).with_exc(e))
     cx.field_call.update(validate=validate, post_setattr=post_setattr, getattr=getattr_)
     cx.globals["Undefined"] = UNDEFINED
     cx.globals["Uninitialized"] = UNINIT
@@ -177,6 +177,15 @@ class SetattrTraitAssign(_SetattrBase):
             prev = st.ghost.get("default")
             gets = [r for r in st.trace[:idx] if r[0] == "dict-get" and r[2] is name or (r[0] == "dict-get" and r[2].eq(name))]
             out.append(("post:notified-old-was-read-before-the-store", z3.BoolVal(bool(gets))))
+            # ... and when the name has no entry yet and the trait is a delegating one (traitd is the resolved trait of the
+            # delegate), what was READABLE is what the object's own trait (traito) gives: the delegate's current value -- not
+            # the resolved trait's default
+            asked = [r for r in st.trace[:idx] if r[0] == "getattr"]
+            if asked:
+                a = asked[-1]
+                out.append(("post:the-readable-old-value-is-asked-of-the-object's-OWN-trait", z3.And(a[1] == info["traito"], a[2] == obj, a[3] == name)))
+                got = st.ghost.get("got")
+                out.append(("post:notified-old-is-what-the-object's-own-trait-returned", old == got if got is not None else z3.BoolVal(False)))
             cmp_val = validated if validated is not None else value
             out.append(("post:notifies-only-for-a-change-under-the-comparison-mode",
                         z3.Or((flags & F_NONE) != 0, old != cmp_val)))
